@@ -2,6 +2,8 @@
 import json, os, re
 from lib import vf, cbuild
 from gen import tdma_sched
+from props import c08_gsmtime_part as gsmtime      # part "gsmtime": layer1/sched_gsmtime.c on top of the TDMA scheduler
+GSMTIME_PART = True
 
 ID = "C08"
 LEVEL = "proof"
@@ -9,30 +11,45 @@ LEAN_MODULES = ["OsmoVerif.Props.C08"]
 DRIVER_MODULES = ["TdmaSched"]
 LEAN_MODEL_MODULES = ["OsmoVerif.Model.TdmaSched", "OsmoVerif.Spec.TdmaSched", "OsmoVerif.Lemmas.TdmaSchedBasic",
                       "OsmoVerif.Lemmas.TdmaSchedSort", "OsmoVerif.Lemmas.TdmaSchedOps", "OsmoVerif.Lemmas.TdmaSchedSpec",
-                      "OsmoVerif.Lemmas.TdmaSched"]
+                      "OsmoVerif.Lemmas.TdmaSchedFly", "OsmoVerif.Lemmas.TdmaSchedExec", "OsmoVerif.Lemmas.TdmaSched"]
 ASSUMPTIONS = [
-    "theorems are about OsmoVerif.Model.TdmaSched: hand model, statement by statement, of wrap_bucket, tdma_schedule, tdma_schedule_set, tdma_sched_advance, tdma_sched_flag_scan, _tdma_sched_bucket_sort (the exchange sort on seq[]), tdma_sched_execute (incl. the rc < 0 path), tdma_sched_reset, tdma_sched_dump, with C widths, array capacities and an explicit out-of-bounds / NULL-call outcome",
-    "callbacks are identified by an id and do not re-enter the scheduler (no tdma_schedule*/reset from inside a callback); the exactly-once theorems assume every pending and scheduled callback reports success (rc >= 0; decidable predicate Inv/OpOk), the error path is modelled, compared, and covered by execute_error_keeps_bucket",
-    "admissible operations (OpOk): arguments within the C parameter types, item sets terminated by SCHED_END_SET() with frame offsets below 256 (no uint8_t wrap of ++frame_offset); runs_exactly_at additionally: offset < 25, no reset between scheduling and execution, the item distinguishable (not pending, not scheduled again), and the firmware discipline execute-then-advance once per frame (sync.c frame interrupt) with scheduling for the current frame only before its execute; the ring statement pending_runs_ring needs no discipline",
-    "model tied to the current tree by differential execution of the unchanged tdma_sched.c (compiled for the host; l1s, console and recording callbacks supplied by harness/c/c08_harness.c) on structured random histories: buckets filled to capacity and beyond, > 25 advances, equal/negative/extreme priorities, offsets 0..300, out-of-width arguments, failing callbacks, multi-frame sets incl. overflow in mid-set and elements after END_SET, stale flags, every priority pattern over {-1,0,1}^<=6 and {0,1}^8",
+    "theorems are about OsmoVerif.Model.TdmaSched: hand model, statement by statement, of wrap_bucket, tdma_schedule, tdma_schedule_set, tdma_sched_advance, tdma_sched_flag_scan, _tdma_sched_bucket_sort (the exchange sort on seq[], all TDMASCHED_NUM_CB entries initialised), tdma_sched_execute (seq[] computed once before the loop, bucket->num_items re-read on every iteration, the rc < 0 path, the final num_items = 0), tdma_sched_reset, tdma_sched_dump, with C widths (cur_bucket is stored through the uint8_t conversion; cur_bucket < 25 is proved from the statement cur_bucket = wrap_bucket(1), not assumed), array capacities and an explicit out-of-bounds / NULL-call outcome; the execute loop recurses on seq[i..], so it makes at most TDMASCHED_NUM_CB calls and seq[TDMASCHED_NUM_CB] is the out-of-bounds outcome (no fuel)",
+    "callbacks are identified by an id; a callback may re-enter the scheduler while tdma_sched_execute() runs ('on the fly' scheduling): when invoked it makes the tdma_schedule()/tdma_schedule_set() calls of its script (Env.scripts: fixed per callback id, any offsets, the scheduled callbacks may be scripted themselves, a callback may re-schedule itself) on the live scheduler and the return values are recorded; callbacks do not call execute/advance/reset and their scripts do not depend on their parameters or on earlier return values; EnvOk (decidable): every scripted call is an admissible operation; NoReentry (decidable, scripts empty) is the special case of the first version of the model",
+    "the exactly-once theorems assume every pending and scheduled callback reports success (rc >= 0; decidable predicates Inv/OpOk/EnvOk); the error path is modelled, compared, and covered by execute_error_keeps_bucket (state = what the callbacks that ran scheduled from inside, bucket not cleared)",
+    "admissible operations (OpOk): arguments within the C parameter types, item sets terminated by SCHED_END_SET() with frame offsets below 256 (no uint8_t wrap of ++frame_offset); runs_exactly_at / onfly_runs_exactly_at additionally: offset < 25, no reset between scheduling and execution, the item distinguishable (not pending, not scheduled again by an operation or - NoFlyPlaces, a decidable statement about the calls actually made from inside during the history - by a callback), and the firmware discipline execute-then-advance once per frame (sync.c frame interrupt) with scheduling for the current frame only before or during its execute; the ring statement pending_runs_ring needs no discipline",
+    "model tied to the current tree by differential execution of the unchanged tdma_sched.c (compiled for the host; l1s, console and recording/scripted callbacks supplied by harness/c/c08_harness.c: a scripted callback makes its calls on the REAL scheduler from inside the REAL tdma_sched_execute()) on structured random histories: buckets filled to capacity and beyond, long histories of 262..626 advances (cur_bucket beyond 255 and 511 advances, items pending across) incl. one from every ring position, equal/negative/extreme priorities, offsets 0..300, out-of-width arguments, failing callbacks, multi-frame sets incl. overflow in mid-set and elements after END_SET, stale flags, scripted callbacks (offset 0 and later, sets, nesting, overflow from inside, self re-scheduling, cycles, failing scripted callbacks), every priority pattern over {-1,0,1}^<=6 and {0,1}^8",
     "TDMASCHED_NUM_FRAMES / TDMASCHED_NUM_CB, the field widths and the SCHED_END_FRAME()/SCHED_END_SET()/SCHED_ITEM()/SCHED_ITEM_DT() expansions are regenerated from the header on every run and used by the theorems (gen_consts)",
 ]
 MANIFEST = {
-    "text": "Lean 4 theorems over a statement-level model of tdma_sched.c, from every well-formed state (any ring position) and every list of admissible operations: step_safe (no out-of-bounds index, no NULL call, invariant preserved), sched_refines / sched_refines_run (every operation does to the pending work what the abstract 'items due in d frames' machine does, same return values, executed callbacks a priority-sorted permutation of the items due), prio_order (for the actual exchange sort), executed_empty, overflow_reported / overflow_reported_set (error return, state unchanged resp. every frame keeps its items), set_placement (k-th frame of a set lands k frames after the first), pending_runs_ring (ring statement, no discipline), pending_runs_exactly_at / runs_exactly_at / set_runs_exactly_at (exactly once, at the execute after exactly N advances, with its parameters, 0 times anywhere else), nothing_else_runs, execute_error_keeps_bucket; constants regenerated from the header; the model is compared with the unchanged C code on structured random histories and an independent Python reference of the property is evaluated on the outputs of the real C code (instrumented with ASan/UBSan bounds)",
-    "note": "trusted: Lean kernel (+propext, Classical.choice, Quot.sound), gen/tdma_sched.py, the differential harness harness/c/c08_harness.c (supplies l1s, console, recording callbacks); assumed: callbacks do not re-enter the scheduler; premises of the exactly-once theorems: callbacks report success, offsets < 25, execute-then-advance discipline, no reset in between, distinguishable item; modelled not verified: C integer conversion rules as written in Model/TdmaSched.lean. Corner cases of the real code outside the premises are pinned by examples (unstable order of equal priorities, offset >= 25 aliases, scheduling for the executed current frame waits 25 frames, an overflowing set keeps its first items, reset keeps the current bucket, a failing callback leaves the bucket scheduled, tdma_schedule() inherits stale .flags)",
-    "technique": "Lean 4 proof by refinement (invariant + induction over op lists) over a C-width model with explicit array bounds; differential correspondence with the compiled C; property oracle on the real code",
+    "text": "Lean 4 theorems over a statement-level model of tdma_sched.c with callbacks that may schedule from inside tdma_sched_execute(), from every well-formed state (any ring position) and every list of admissible operations: step_safe / history_safe (no out-of-bounds index, no NULL call, invariant preserved, scripted callbacks of any nesting included), sched_refines / sched_refines_run (every operation does to the pending work what the abstract 'items due in d frames' machine does, same return values; for execute: callbacks that do not re-enter), execute_on_the_fly (execute with re-entrant callbacks is an admissible on-the-fly execution: priority-sorted permutation of the items due at the start, then the items added to the current frame in the order added, calls from inside act like calls from outside), prio_order (for the actual exchange sort), executed_empty, overflow_reported / overflow_reported_set / overflow_inside_reported / call_inside_is_call (error return, state unchanged resp. every frame keeps its items, also from inside a callback), set_placement, pending_runs_ring (ring statement, no discipline), pending_runs_exactly_at / runs_exactly_at / set_runs_exactly_at (exactly once, at the execute after exactly N advances, with its parameters, 0 times anywhere else), onfly_runs_exactly_at (the same for an item scheduled from inside a callback of frame F for offset N >= 1: frame F+N), onfly_same_frame (offset 0 from inside: exactly once in the same execute, after the items pending at its start, in append order, never again), onfly_nothing_lost (everything the frame held when it was cleared has run), nothing_else_runs, execute_error_keeps_bucket; constants regenerated from the header; the model is compared with the unchanged C code on structured random histories (incl. > 512 advances and scripted callbacks) and an independent Python reference of the property is evaluated on the outputs of the real C code (instrumented with ASan/UBSan bounds)",
+    "note": "trusted: Lean kernel (+propext, Classical.choice, Quot.sound), gen/tdma_sched.py, the differential harness harness/c/c08_harness.c (supplies l1s, console, recording and scripted callbacks); assumed: callbacks only call tdma_schedule/tdma_schedule_set (not execute/advance/reset) and what they call is fixed per callback id; premises of the exactly-once theorems: callbacks report success, offsets < 25, execute-then-advance discipline, no reset in between, distinguishable item; modelled not verified: C integer conversion rules as written in Model/TdmaSched.lean. Corner cases of the real code outside the premises are pinned by examples (unstable order of equal priorities, items scheduled on the fly for the current frame run in append order not by priority, a callback re-scheduling itself for the current frame is refused at the 8th call, offset >= 25 aliases, scheduling for the executed current frame waits 25 frames, an overflowing set keeps its first items, reset keeps the current bucket, a failing callback leaves the bucket scheduled, tdma_schedule() inherits stale .flags)",
+    "technique": "Lean 4 proof by refinement (invariant + induction over op lists and over the execute loop) over a C-width model with explicit array bounds; differential correspondence with the compiled C; property oracle on the real code",
     "design_ref": "DESIGN.md section 5 C08",
 }
+
+if GSMTIME_PART:
+    LEAN_MODULES += gsmtime.LEAN_MODULES
+    DRIVER_MODULES += gsmtime.DRIVER_MODULES
+    LEAN_MODEL_MODULES += gsmtime.LEAN_MODEL_MODULES
+    ASSUMPTIONS += gsmtime.ASSUMPTIONS
+    MANIFEST = dict(MANIFEST, text=MANIFEST["text"] + gsmtime.MANIFEST_TEXT, note=MANIFEST["note"] + gsmtime.MANIFEST_NOTE)
 
 NF = 25          # scheduler depth the property speaks about
 NCB = 8          # capacity of one frame
 FW_FLAGS = ["-Dputs=fw_puts", "-Dprintf=fw_printf", "-Dputchar=fw_putchar"]
-OK_CBS = list(range(0, 10))      # callbacks that report success (8 returns 1, 9 returns p1)
+OK_CBS = list(range(0, 10)) + list(range(13, 25))   # callbacks that report success (8 returns 1, 9 returns p1, 13..24 return 0)
+PLAIN_CBS = list(range(0, 10))   # the ones the generators never give a script
+SCRIPT_IDS = list(range(13, 25)) # callbacks the generators give scripts (any id 0..24 may have one)
 ERR_CBS = [10, 11, 12]           # 10: -1, 11: -p2-1, 12: -5 iff p3 odd
+NUM_CBS = 25
+MAX_SCRIPT_CALLS = 16
+MAX_SCRIPT_SET = 64
 
 
 def gen(run):
     run.consts = tdma_sched.generate(run)
+    if GSMTIME_PART:
+        gsmtime.gen(run)
 
 
 def build_harness(run, san=False):
@@ -92,8 +109,12 @@ def run_hist(exe, lines, max_crashes=3):
 #   ("sched", off, cb, p1, p2, p3, prio)   cb = int id or "E"
 #   ("set", off, p3, [elem...])            elem = ("i", cb, p1, p2, prio, flags) | "F" | "E"
 #   ("exec",) ("adv",) ("reset",) ("flags",) ("dump",)
+#   ("def", id, [call...])                 call = a ("sched", ...) or ("set", ...) tuple: what callback `id` calls from inside
+# an observed callback invocation is (id, p1, p2, p3, ret, [rc of each call it made from inside])
 
 def op_str(op):
+    if op[0] == "def":
+        return ("def %d " % op[1] + " | ".join(op_str(c) for c in op[2])).strip()
     if op[0] == "sched":
         return "sched %s %s %d %d %d %d" % (op[1], op[2], op[3], op[4], op[5], op[6])
     if op[0] == "set":
@@ -120,20 +141,63 @@ def parse_line(line):
         else:
             curc.append(x)
     cmds.append(curc)
-    for c in cmds:
+    def call(c):
         if c[0] == "sched":
-            ops.append(("sched", int(c[1]), c[2] if c[2] == "E" else int(c[2]), int(c[3]), int(c[4]), int(c[5]), int(c[6])))
-        elif c[0] == "set":
-            el, i = [], 3
-            while i < len(c):
-                if c[i] in ("F", "E"):
-                    el.append(c[i]); i += 1
+            return ("sched", int(c[1]), c[2] if c[2] == "E" else int(c[2]), int(c[3]), int(c[4]), int(c[5]), int(c[6]))
+        el, i = [], 3
+        while i < len(c):
+            if c[i] in ("F", "E"):
+                el.append(c[i]); i += 1
+            else:
+                el.append(("i",) + tuple(int(v) for v in c[i + 1:i + 6])); i += 6
+        return ("set", int(c[1]), int(c[2]), el)
+    for c in cmds:
+        if c[0] in ("sched", "set"):
+            ops.append(call(c))
+        elif c[0] == "def":
+            calls, curc = [], []
+            for x in c[2:]:
+                if x == "|":
+                    calls.append(call(curc)); curc = []
                 else:
-                    el.append(("i",) + tuple(int(v) for v in c[i + 1:i + 6])); i += 6
-            ops.append(("set", int(c[1]), int(c[2]), el))
+                    curc.append(x)
+            if curc:
+                calls.append(call(curc))
+            ops.append(("def", int(c[1]), calls))
         else:
             ops.append((c[0],))
     return cur, ops
+
+
+def in_domain(line):
+    """inside the property's quantifier: callbacks that report success (none of the failing callbacks ERR_CBS, neither in
+    the history nor in a script), a current ring position below 25.  What the scheduler does when a callback fails (the
+    rc < 0 path) is modelled and compared, but the property does not speak about it: a difference there is listed in the
+    evidence and is not a broken tie."""
+    try:
+        cur, ops = parse_line(line)
+    except (ValueError, IndexError):
+        return False
+    if not 0 <= cur < NF:
+        return False
+
+    def cbs(op):
+        if op[0] == "sched":
+            yield op[2]
+        elif op[0] == "set":
+            for e in op[3]:
+                if isinstance(e, tuple):
+                    yield e[1]
+        elif op[0] == "def":
+            yield op[1]
+            for c in op[2]:
+                for x in cbs(c):
+                    yield x
+    for op in ops:
+        for c in cbs(op):
+            if c in ERR_CBS:
+                return False
+    return True
 
 
 def parse_answer(ans):
@@ -145,7 +209,10 @@ def parse_answer(ans):
             res.append(("r", int(tok[1:])))
         elif k == "x":
             parts = tok[1:].split(":")
-            calls = [tuple(int(v) for v in p.split(",")) for p in parts[1:]]
+            calls = []
+            for p in parts[1:]:
+                q = p.split("/")
+                calls.append(tuple(int(v) for v in q[0].split(",")) + ([int(v) for v in q[1:]],))
             res.append(("x", int(parts[0]), calls))
         elif k == "d":
             res.append(("d", [int(v) for v in tok[1:].split(",")]))
@@ -201,11 +268,11 @@ class Gen:
         return ("set", off, self.rng.randrange(0, 65536), el)
 
     # -- histories obeying the property's premises ------------------------------------------
-    def disciplined(self, nframes, load, resets=False, sets=True, overflow=False):
+    def disciplined(self, nframes, load, resets=False, sets=True, overflow=False, cur=None, dumps=0.15):
         """pre-ops ; exec ; post-ops (offset >= 1) ; adv  per frame; callbacks succeed; offsets < 25"""
         r = self.rng
         self.serial = r.randrange(0, 30000)
-        cur = r.randrange(0, NF)
+        cur = r.randrange(0, NF) if cur is None else cur
         pmode = r.choice(["eq", "few", "edge", "any"])
         ops = []
         period = r.choice([7, 12, 25, 30])   # absolute frames k*period get crowded
@@ -226,17 +293,151 @@ class Gen:
                         ops.append(self.item(off, OK_CBS, pmode))
                 if resets and r.random() < 0.08:
                     ops.append(("reset",))
-                if r.random() < 0.15:
+                if r.random() < dumps:
                     ops.append(("dump",))
                 if phase == 0:
                     ops.append(("exec",))
-                    if r.random() < 0.3:
+                    if r.random() < 2 * dumps:
                         ops.append(("dump",))
             ops.append(("adv",))
         for f in range(NF + 1):         # flush: nothing may run late or twice
             ops += [("exec",), ("adv",)]
         ops.append(("dump",))
         return cur, ops
+
+    def long_run(self, nframes=None, cur=None):
+        """several hundred disciplined frames: cur_bucket (uint8_t in the C code) passes 255 and 511 advances with
+        items pending across; light load so that the quick tier stays fast"""
+        r = self.rng
+        nframes = nframes or r.choice([262, 300, 520, 540, 600])
+        return self.disciplined(nframes, [0, 0, 0, 1, 1, 2], resets=False, sets=r.random() < 0.5,
+                                overflow=r.random() < 0.3, cur=cur, dumps=0.02)
+
+    def ring_walk(self, cur, nframes=540):
+        """deterministic: from ring position `cur`, one item per frame, the offsets going through 0..24 (every ring
+        position is a target again and again), over more than 512 advances; every 50th frame is filled to capacity"""
+        ops = []
+        self.serial = 1000 * cur
+        for f in range(nframes):
+            off = (f * 7 + cur) % NF
+            p1, p2 = self.uniq()
+            ops.append(("sched", off, (f + cur) % 10, p1, p2, f, (f * 5) % 7 - 3))
+            if f % 50 == 49:
+                for k in range(NCB):
+                    p1, p2 = self.uniq()
+                    ops.append(("sched", 24, k, p1, p2, f, (k * 3) % 5 - 2))
+            ops += [("exec",), ("adv",)]
+            if f % 100 == 99:
+                ops.append(("dump",))
+        for f in range(NF + 1):
+            ops += [("exec",), ("adv",)]
+        ops.append(("dump",))
+        return cur, ops
+
+    def script_defs(self, pmode, offs=None):
+        """scripts for some callbacks: a forest (every scripted callback is scheduled by at most one other one, so
+        that the items stay distinguishable); calls for the current frame (offset 0) and later ones, sets, nesting"""
+        r = self.rng
+        ids = SCRIPT_IDS[:]
+        r.shuffle(ids)
+        ids = ids[:r.randrange(2, len(ids) + 1)]
+        children = {i: [] for i in ids}
+        roots = []
+        for j, i in enumerate(ids):
+            if j == 0 or r.random() < 0.3:
+                roots.append(i)
+            else:
+                children[r.choice(ids[:j])].append(i)
+        offs = offs or [0, 0, 0, 1, 1, 2, 3, 12, 23, 24]
+        defs = []
+        for i in ids:
+            calls = []
+            todo = children[i] + [None] * r.choice([0, 1, 1, 2, 3])
+            r.shuffle(todo)
+            while todo and len(calls) < MAX_SCRIPT_CALLS:
+                if r.random() < 0.3:
+                    off = r.choice([0, 0, 1, 2, 5, 20])
+                    el = []
+                    for k in range(min(r.choice([1, 2, 3]), NF - off)):
+                        if k:
+                            el.append("F")
+                        for _ in range(r.choice([0, 1, 1, 2])):
+                            cb = todo.pop() if todo else None
+                            p1, p2 = self.uniq()
+                            el.append(("i", cb if cb is not None else r.choice(PLAIN_CBS), p1, p2, self.prio(pmode), 0))
+                    el.append("E")
+                    calls.append(("set", off, r.randrange(0, 65536), el))
+                else:
+                    cb = todo.pop()
+                    p1, p2 = self.uniq()
+                    calls.append(("sched", r.choice(offs + [r.randrange(0, NF)]), cb if cb is not None else r.choice(PLAIN_CBS),
+                                  p1, p2, r.randrange(0, 65536), self.prio(pmode)))
+            defs.append(("def", i, calls))
+        return defs, roots
+
+    def scripted(self, nframes, selfresched=None):
+        """disciplined frames with callbacks that schedule from inside tdma_sched_execute(): for the frame being
+        executed and for later ones, sets, nesting, frames crowded so that calls from inside overflow;
+        selfresched = 0 / 1: one callback re-schedules itself for the current frame (until the frame is full) /
+        for the next frame (a periodic task)"""
+        r = self.rng
+        self.serial = r.randrange(0, 30000)
+        cur = r.randrange(0, NF)
+        pmode = r.choice(["eq", "few", "edge", "any"])
+        defs, roots = self.script_defs(pmode)
+        ops = []
+        when = {}
+        for i in roots:
+            when.setdefault(r.randrange(0, nframes), []).append(i)
+        if selfresched is not None:
+            sid = [i for i in SCRIPT_IDS if i not in [d[1] for d in defs]]
+            if sid:
+                p1, p2 = self.uniq()
+                me = ("sched", selfresched, sid[0], p1, p2, r.randrange(0, 65536), self.prio(pmode))
+                defs.append(("def", sid[0], [me]))
+                ops.append(("sched", r.choice([0, 1, 3]),) + me[2:])
+        for f in range(nframes):
+            for phase in (0, 1):
+                lo = 0 if phase == 0 else 1
+                for _ in range(r.choice([0, 0, 1, 2])):
+                    ops.append(self.item(r.choice([lo, 1, 2, 3, 24, r.randrange(lo, NF)]), PLAIN_CBS, pmode))
+                for i in when.get(f, []) if phase == 0 else []:
+                    off = r.choice([0, 0, 1, 2, 24])
+                    p1, p2 = self.uniq()
+                    if r.random() < 0.5:
+                        for _ in range(r.choice([4, 5, 6, 7])):      # crowd the frame: calls from inside for it overflow
+                            ops.append(self.item(off, PLAIN_CBS, pmode))
+                    ops.append(("sched", off, i, p1, p2, r.randrange(0, 65536), self.prio(pmode)))
+                if r.random() < 0.1:
+                    ops.append(("dump",))
+                if phase == 0:
+                    ops.append(("exec",))
+                    if r.random() < 0.3:
+                        ops.append(("dump",))
+            ops.append(("adv",))
+        for f in range(NF + 1):
+            ops += [("exec",), ("adv",)]
+        ops.append(("dump",))
+        return cur, defs + ops
+
+    def script_errors(self):
+        """a callback that makes calls from inside and then reports an error: execute leaves the bucket (and what
+        was scheduled from inside) in place; outside the premises, correspondence only"""
+        r = self.rng
+        self.serial = r.randrange(0, 30000)
+        cur = r.randrange(0, NF)
+        bad = r.choice(ERR_CBS)
+        p1, p2 = self.uniq()
+        q1, q2 = self.uniq()
+        defs = [("def", bad, [("sched", r.choice([0, 0, 1]), r.choice(PLAIN_CBS), p1, p2, 7, r.choice([-1, 0, 1])),
+                               ("set", r.choice([0, 1]), 9, [("i", 13, q1, q2, 0, 1), "F", ("i", 2, q2, q1, 1, 2), "E"])]),
+                ("def", 13, [("sched", 0, r.choice(PLAIN_CBS), q2, q2, 3, 0)])]
+        ops = []
+        for k in range(r.randrange(0, 4)):
+            ops.append(self.item(0, PLAIN_CBS, "few"))
+        ops.append(("sched", 0, bad, 1, 2, 3, r.choice([-1, 0, 1])))
+        ops += [("exec",), ("dump",), ("exec",), ("dump",), ("exec",), ("adv",), ("exec",), ("dump",)]
+        return cur, defs + ops
 
     def fill(self):
         """one frame filled to capacity and beyond, then executed"""
@@ -264,8 +465,26 @@ class Gen:
         self.serial = r.randrange(0, 60000)
         cur = r.randrange(0, NF)
         pmode = r.choice(["eq", "few", "edge", "any", "wild"])
-        cbs = r.choice([OK_CBS, OK_CBS + ERR_CBS, ERR_CBS + [0, 1], list(range(13)) + ["E"]])
+        cbs = r.choice([OK_CBS, OK_CBS + ERR_CBS, ERR_CBS + [0, 1], list(range(NUM_CBS)) + ["E"]])
         ops = []
+        defs = []
+        if r.random() < 0.6:
+            # scripts of any shape: cycles, failing callbacks, offsets beyond the depth, out-of-width arguments
+            for i in r.sample(range(NUM_CBS), r.randrange(1, 8)):
+                calls = []
+                for _ in range(r.choice([0, 1, 1, 2, 3, MAX_SCRIPT_CALLS])):
+                    if r.random() < 0.25:
+                        scbs = [x for x in cbs if x != "E"]
+                        calls.append(self.set_op(r.choice([0, 0, 1, 24, 25, 255]), scbs, "edge", r.choice([1, 2, 3, 9]),
+                                                 [0, 1, 2, NCB + 1], tail=r.random() < 0.3, flags=True))
+                        if len(calls[-1][3]) > MAX_SCRIPT_SET:
+                            calls.pop()
+                    else:
+                        p1, p2 = self.uniq()
+                        calls.append(("sched", r.choice([0, 0, 0, 1, 2, 24, 25, 50, 255, 256, r.randrange(0, 256)]), r.choice(cbs + [i]),
+                                      p1 + r.choice([0, 0, 256]), p2, r.choice([0, 1, 65535, 65536, r.randrange(0, 70000)]),
+                                      r.choice(PRIOS + [32768, -32769, 70000])))
+                defs.append(("def", i, calls))
         for _ in range(n):
             c = r.random()
             if c < 0.35:
@@ -292,7 +511,7 @@ class Gen:
             else:
                 ops.append(("flags",))
         ops.append(("dump",))
-        return cur, ops
+        return cur, defs + ops
 
     def errors(self):
         """failing callbacks at every position of a bucket; execute repeated; bucket comes round"""
@@ -344,7 +563,7 @@ def corr_lines(run, n):
     lines = []
     kinds = []
     for i in range(n):
-        c = i % 10
+        c = i % 14
         if c < 3:
             cur, ops = g.soup(run.rng.choice([10, 40, 120]))
             kinds.append("soup")
@@ -354,13 +573,29 @@ def corr_lines(run, n):
         elif c < 7:
             cur, ops = g.fill()
             kinds.append("fill")
-        elif c < 9:
+        elif c < 8:
             cur, ops = g.errors()
             kinds.append("errors")
-        else:
+        elif c < 9:
+            cur, ops = g.script_errors()
+            kinds.append("errors-scripted")
+        elif c < 10:
             cur, ops = g.stale_flags()
             kinds.append("flags")
+        elif c < 13:
+            cur, ops = g.scripted(run.rng.choice([2, 8, 30]), selfresched=run.rng.choice([None, None, 0, 1]))
+            kinds.append("scripted")
+        else:
+            cur, ops = g.scripted(run.rng.choice([1, 3]), selfresched=0)
+            kinds.append("scripted")
         lines.append(to_line(cur, ops))
+    # long histories: more than 256 and more than 512 advances, from every ring position
+    for cur in range(NF):
+        lines.append(to_line(*g.ring_walk(cur)))
+        kinds.append("long")
+    for i in range(run.scale(25, 300)):
+        lines.append(to_line(*g.long_run()))
+        kinds.append("long")
     return lines, kinds
 
 
@@ -377,11 +612,20 @@ def correspond(run, corr):
     lines += l2
     kinds += k2
     # malformed requests: both sides must refuse
-    lines += ["ts.run 25 exec", "ts.run 0 sched 0 13 0 0 0 0", "ts.run 0 set 0 0 i 1 1 1 1 0", "ts.run 0 bogus", "ts.run 0"]
-    kinds += ["malformed"] * 5
+    bad = ["ts.run 25 exec", "ts.run 0 sched 0 25 0 0 0 0", "ts.run 0 set 0 0 i 1 1 1 1 0", "ts.run 0 bogus", "ts.run 0",
+           "ts.run 0 def 25 ; exec", "ts.run 0 def 3 | ; exec", "ts.run 0 def 3 sched 0 1 1 1 1 ; exec", "ts.run 0 exec ; def 3 ; exec",
+           "ts.run 0 def 3 ; def 3 ; exec", "ts.run 0 def 3 sched 0 1 1 1 1 1 | ; exec", "ts.run 0 def 3 exec ; exec",
+           "ts.run 0 def 3 " + " | ".join(["sched 0 1 1 1 1 1"] * (MAX_SCRIPT_CALLS + 1)) + " ; exec",
+           "ts.run 0 def 3 set 0 0 " + "F " * MAX_SCRIPT_SET + "E ; exec"]
+    # well-formed limits: exactly MAX_SCRIPT_CALLS calls, exactly MAX_SCRIPT_SET set elements, an empty script
+    good = ["ts.run 0 def 3 " + " | ".join(["sched 0 1 1 1 1 1"] * MAX_SCRIPT_CALLS) + " ; sched 0 3 0 0 0 0 ; exec ; dump",
+            "ts.run 0 def 3 set 0 0 " + "F " * (MAX_SCRIPT_SET - 1) + "E ; sched 0 3 0 0 0 0 ; exec ; dump",
+            "ts.run 7 def 3 ; def 4 sched 0 3 1 1 1 1 ; sched 0 4 0 0 0 0 ; exec ; dump"]
+    lines += bad + good
+    kinds += ["malformed"] * len(bad) + ["scripted"] * len(good)
     impl = run_hist(exe, lines)
     model = vf.run_driver(lines)
-    corr.compare(lines, impl, model)
+    corr.compare(lines, impl, model, in_domain=in_domain)
     if corr.disagreements:
         d = corr.disagreements[0]
         small = shrink_disagreement(exe, d["request"])
@@ -397,22 +641,50 @@ def correspond(run, corr):
                    "x": "exec:" + ("empty" if tok == "x0" else "error" if tok.startswith("x-") else "ran")}.get(tok[0])
             if key:
                 corr.distribution[key] = corr.distribution.get(key, 0) + 1
+            if tok[0] == "x" and "/" in tok:
+                corr.distribution["exec: with calls from inside"] = corr.distribution.get("exec: with calls from inside", 0) + 1
+                corr.distribution["calls from inside: returned 0"] = corr.distribution.get("calls from inside: returned 0", 0) + tok.count("/0")
+                corr.distribution["calls from inside: refused (-1)"] = corr.distribution.get("calls from inside: refused (-1)", 0) + tok.count("/-1")
+        if k == "long":
+            corr.distribution["long: advances in the longest history"] = max(corr.distribution.get("long: advances in the longest history", 0), ln.count(" adv"))
     corr.distribution["ops total"] = nops
-    corr.rule = ("a case is one history line (zeroed scheduler, given ring position, sequence of tdma_schedule / tdma_schedule_set / "
-                 "execute / advance / reset / flag_scan / dump); families: random op soup with offsets 0..300 and out-of-width arguments, "
-                 "disciplined frames (execute, advance) over up to 60+26 frames, one frame filled to capacity and beyond, failing callbacks, "
-                 "stale flags, every priority pattern over {-1,0,1}^<=6 and {0,1}^8; compared: every return code, every callback invocation "
-                 "(id, p1, p2, p3, rc) in order, flag_scan values, num_items of all 25 buckets at the dump points")
+    corr.rule = ("a case is one history line (zeroed scheduler, given ring position, scripts of the callbacks, sequence of tdma_schedule / "
+                 "tdma_schedule_set / execute / advance / reset / flag_scan / dump); families: random op soup with offsets 0..300, out-of-width "
+                 "arguments and arbitrary scripts (cycles, failing callbacks), disciplined frames (execute, advance) over up to 60+26 frames, "
+                 "long histories of 262..600 frames (cur_bucket beyond 255 and 511 advances) incl. one from every ring position, one frame filled "
+                 "to capacity and beyond, failing callbacks (with and without calls from inside), stale flags, callbacks that schedule from inside "
+                 "tdma_sched_execute() (offset 0 and later, sets, nesting depth up to 12, crowded frames: overflow from inside, a callback that "
+                 "re-schedules itself), every priority pattern over {-1,0,1}^<=6 and {0,1}^8; compared: every return code, every callback "
+                 "invocation (id, p1, p2, p3, rc) in order with the return value of every call it made from inside, flag_scan values, num_items "
+                 "of all 25 buckets at the dump points")
     corr.samples = [{"request": r[:400], "impl": a[:400], "model": b[:400]} for r, a, b in list(zip(lines, impl, model))[:3]]
+    if GSMTIME_PART:
+        gsmtime.correspond(run, corr)
 
 
 # ------------------------------------------------------------------------------------------
 # the property oracle: an independent Python reference of the PROPERTY (not of the code),
 # evaluated on the outputs of the real C code.
 
+class _Inst:
+    """one scheduled item instance the reference expects to run (or, if optional, allows to run) in its frame"""
+    __slots__ = ("key", "prio", "optional", "fly", "ran")
+
+    def __init__(self, key, prio, optional=False, fly=False):
+        self.key, self.prio, self.optional, self.fly, self.ran = key, prio, optional, fly, False
+
+
 def evaluate(cur, ops, obs, premises_only=False):
     """returns None (property holds on this history), "n/a" (history outside the premises) or a
-    dict describing the first failure."""
+    dict describing the first failure.
+
+    The reference knows frames (number of advances), not buckets: an item scheduled `off` frames ahead at
+    frame t belongs to frame t + off, whoever schedules it - an operation of the history or a callback
+    from inside tdma_sched_execute() (then t is the frame being executed; off = 0 is that very frame, the
+    item has to run in the same execute).  A frame holds at most NCB items until it has been executed; whether
+    items of the frame being executed that have already run still count is left open (either answer of a call
+    from inside is accepted while only the items still to run fit).  Items with the same callback and parameters in one frame are told apart only by their
+    number (they must have the same priority, otherwise the history is skipped)."""
     po = premises_only
     if po:
         obs = [None] * len(ops)
@@ -420,126 +692,187 @@ def evaluate(cur, ops, obs, premises_only=False):
         return {"what": "answer has %d tokens for %d ops" % (len(obs), len(ops)), "op_index": 0}
     t = 0                 # frame number = advances so far
     executed = False      # has this frame been executed
-    must = {}             # frame -> {key: prio}   items that have to run in that frame
-    opt = {}              # frame -> {key: prio}   items the property leaves open (may run in that frame, once)
+    pend = {}             # frame -> [_Inst]
     lo, hi = {}, {}       # frame -> bounds on the occupancy of the frame
-    seen = set()
+    scripts = {}          # callback id -> calls it makes from inside
+    started = False
 
-    def place(T, key, prio, optional=False):
-        (opt if optional else must).setdefault(T, {})[key] = prio
+    def place(T, key, prio, optional=False, fly=False):
+        pend.setdefault(T, []).append(_Inst(key, prio, optional, fly))
 
-    for i, (op, ob) in enumerate(zip(ops, obs)):
-        if op[0] == "sched":
-            _, off, cb, p1, p2, p3, prio = op
-            if cb not in OK_CBS or not (0 <= off < NF) or not (0 <= p1 < 256 and 0 <= p2 < 256 and 0 <= p3 < 65536 and -32768 <= prio <= 32767):
+    def do_sched(i, op, rc, inside):
+        """one tdma_schedule() at frame t; rc = observed return value (None: premises only)"""
+        _, off, cb, p1, p2, p3, prio = op
+        if cb not in OK_CBS or not (0 <= off < NF) or not (0 <= p1 < 256 and 0 <= p2 < 256 and 0 <= p3 < 65536 and -32768 <= prio <= 32767):
+            return "n/a"
+        if executed and off == 0 and not inside:
+            return "n/a"
+        key = (cb, p1, p2, p3)
+        T = t + off
+        l, h = lo.get(T, 0), hi.get(T, 0)
+        where = " from inside a callback" if inside else ""
+        if inside and off == 0:
+            l = max(0, l - sum(1 for x in pend.get(t, []) if x.ran))
+            if l < NCB <= h and rc in (0, -1):
+                # the items that already ran may or may not count: both answers are admissible, follow the code
+                if rc == 0:
+                    place(T, key, prio, fly=True)
+                    lo[T], hi[T] = lo.get(T, 0) + 1, h + 1
+                return None
+        if l < NCB <= h:
+            return "n/a"
+        if h < NCB:
+            if rc is not None and rc != 0:
+                return {"what": "tdma_schedule%s into a frame holding %d items did not return 0" % (where, h), "op_index": i, "got": rc}
+            place(T, key, prio, fly=inside and off == 0)
+            lo[T], hi[T] = l + 1, h + 1
+        else:
+            if rc is not None and rc != -1:
+                return {"what": "tdma_schedule%s into a full frame (%d items) did not report an error" % (where, l), "op_index": i, "got": rc}
+        return None
+
+    def do_set(i, op, rc, inside):
+        _, off, p3, el = op
+        if not (0 <= off < NF) or not (0 <= p3 < 65536):
+            return "n/a"
+        k = 0
+        placed = []
+        failed = False
+        for e in el:
+            if e == "E":
+                break
+            if e == "F":
+                k += 1
+                continue
+            _, cb, p1, p2, prio, flags = e
+            if cb not in OK_CBS or off + k >= NF or not (0 <= p1 < 256 and 0 <= p2 < 256 and -32768 <= prio <= 32767):
                 return "n/a"
-            if executed and off == 0:
+            if executed and off + k == 0 and not inside:
                 return "n/a"
             key = (cb, p1, p2, p3)
-            if key in seen:
-                return "n/a"
-            seen.add(key)
-            T = t + off
+            T = t + off + k
             l, h = lo.get(T, 0), hi.get(T, 0)
             if l < NCB <= h:
                 return "n/a"
-            if h < NCB:
-                if not po and ob != ("r", 0):
-                    return {"what": "tdma_schedule into a frame holding %d items did not return 0" % h, "op_index": i, "got": ob}
-                place(T, key, prio)
-                lo[T], hi[T] = l + 1, h + 1
-            else:
-                if not po and ob != ("r", -1):
-                    return {"what": "tdma_schedule into a full frame (%d items) did not report an error" % l, "op_index": i, "got": ob}
-        elif op[0] == "set":
-            _, off, p3, el = op
-            if not (0 <= off < NF) or not (0 <= p3 < 65536):
+            if h >= NCB:
+                failed = True
+                break
+            placed.append((T, key, prio, inside and off + k == 0))
+            lo[T], hi[T] = l + 1, h + 1
+        else:
+            return "n/a"      # no END_SET
+        if off + k >= NF:
+            return "n/a"
+        where = " from inside a callback" if inside else ""
+        if failed:
+            if rc is not None and rc != -1:
+                return {"what": "tdma_schedule_set%s overflowing a frame did not report an error" % where, "op_index": i, "got": rc}
+            # what the aborted set leaves behind is not fixed by the property: its items may run (once, in their frame) or not
+            for T, key, prio, fly in placed:
+                place(T, key, prio, optional=True, fly=fly)
+                lo[T] -= 1
+        else:
+            if rc is not None and rc != k:
+                return {"what": "tdma_schedule_set%s did not return the number of frame markers (%d)" % (where, k), "op_index": i, "got": rc}
+            for T, key, prio, fly in placed:
+                place(T, key, prio, fly=fly)
+        return None
+
+    def do_call(i, c, rc, inside):
+        return do_sched(i, c, rc, inside) if c[0] == "sched" else do_set(i, c, rc, inside)
+
+    for i, (op, ob) in enumerate(zip(ops, obs)):
+        if op[0] == "def":
+            if started or op[1] in scripts or not (0 <= op[1] < NUM_CBS):
                 return "n/a"
-            k = 0
-            placed = []
-            failed = False
-            for e in el:
-                if e == "E":
-                    break
-                if e == "F":
-                    k += 1
-                    continue
-                _, cb, p1, p2, prio, flags = e
-                if cb not in OK_CBS or off + k >= NF or not (0 <= p1 < 256 and 0 <= p2 < 256 and -32768 <= prio <= 32767):
-                    return "n/a"
-                if executed and off + k == 0:
-                    return "n/a"
-                key = (cb, p1, p2, p3)
-                if key in seen:
-                    return "n/a"
-                seen.add(key)
-                T = t + off + k
-                l, h = lo.get(T, 0), hi.get(T, 0)
-                if l < NCB <= h:
-                    return "n/a"
-                if h >= NCB:
-                    failed = True
-                    break
-                placed.append((T, key, prio))
-                lo[T], hi[T] = l + 1, h + 1
-            else:
-                return "n/a"      # no END_SET
-            if off + k >= NF:
-                return "n/a"
-            if failed:
-                if not po and ob != ("r", -1):
-                    return {"what": "tdma_schedule_set overflowing a frame did not report an error", "op_index": i, "got": ob}
-                # what the aborted set leaves behind is not fixed by the property: its items may run (once, in their frame) or not
-                for T, key, prio in placed:
-                    place(T, key, prio, optional=True)
-                    lo[T] -= 1
-            else:
-                if not po and ob != ("r", k):
-                    return {"what": "tdma_schedule_set did not return the number of frame markers (%d)" % k, "op_index": i, "got": ob}
-                for T, key, prio in placed:
-                    place(T, key, prio)
+            scripts[op[1]] = op[2]
+            continue
+        started = True
+        if op[0] in ("sched", "set"):
+            if not po and (ob is None or ob[0] != "r"):
+                return {"what": "no return value observed", "op_index": i, "got": ob}
+            res = do_call(i, op, None if po else ob[1], False)
+            if res is not None:
+                return res
         elif op[0] == "exec":
             if executed:
                 return "n/a"
-            executed = True
-            m, o = must.pop(t, {}), opt.pop(t, {})
-            lo[t] = hi[t] = 0
+            inst = pend.setdefault(t, [])    # the list keeps growing while callbacks schedule for this frame
+            n0 = len(inst)
             if po:
+                # premises only: the invocation order is known only if the priorities of the items pending at the
+                # start are distinct (or no callback involved makes calls from inside)
+                first = sorted(inst[:n0], key=lambda x: x.prio)
+                scripted = any(scripts.get(x.key[0]) for x in inst)
+                if any(x.optional for x in inst) and scripted:
+                    return "n/a"
+                if scripted and len(set(x.prio for x in first)) != len(first):
+                    return "n/a"
+                k = 0
+                while k < len(first) + len(inst) - n0:
+                    x = first[k] if k < len(first) else inst[n0 + k - len(first)]
+                    for c in scripts.get(x.key[0], []):
+                        res = do_call(i, c, None, True)
+                        if res is not None:
+                            return res
+                    if any(y.optional for y in inst[n0:]):
+                        return "n/a"
+                    k += 1
+                pend.pop(t, None)
+                lo[t] = hi[t] = 0
+                executed = True
                 continue
             _, rc, calls = ob
-            keys = [c[:4] for c in calls]
-            if len(set(keys)) != len(keys):
-                return {"what": "an item ran twice in one frame", "op_index": i, "frame": t, "got": ob}
-            for kx in keys:
-                if kx not in m and kx not in o:
+            first_prios = []
+            for c in calls:
+                kx = tuple(c[:4])
+                cand = [x for x in inst if x.key == kx and not x.ran]
+                if not cand:
+                    if any(x.key == kx for x in inst):
+                        return {"what": "item %s ran more often in frame %d than it was scheduled for it" % (kx, t), "op_index": i, "frame": t, "got": ob}
                     return {"what": "callback %s ran in frame %d but was not scheduled for it" % (kx, t), "op_index": i, "frame": t, "got": ob}
-            for kx in m:
-                if kx not in keys:
-                    return {"what": "item %s scheduled for frame %d did not run in it" % (kx, t), "op_index": i, "frame": t, "got": ob}
-            pr = [m[kx] if kx in m else o[kx] for kx in keys]
-            if any(a > b for a, b in zip(pr, pr[1:])):
-                return {"what": "items of frame %d did not run in ascending priority order: %s" % (t, pr), "op_index": i, "frame": t, "got": ob}
+                if len(set((x.prio, x.optional, x.fly) for x in cand)) > 1:
+                    return "n/a"      # indistinguishable items with different expectations
+                x = cand[0]
+                x.ran = True
+                if not x.fly:
+                    first_prios.append(x.prio)
+                sc = scripts.get(c[0], [])
+                rcs = c[5] if len(c) > 5 else []
+                if len(rcs) != len(sc):
+                    return {"what": "callback %s made %d scheduler calls, its script has %d" % (kx, len(rcs), len(sc)), "op_index": i, "frame": t, "got": ob}
+                for cl, r in zip(sc, rcs):
+                    res = do_call(i, cl, r, True)
+                    if res is not None:
+                        return res
+            for x in inst:
+                if not x.ran and not x.optional:
+                    what = "item %s scheduled for frame %d did not run in it" % (x.key, t)
+                    if x.fly:
+                        what = "item %s scheduled from inside a callback for the frame being executed (%d) did not run in that execute" % (x.key, t)
+                    return {"what": what, "op_index": i, "frame": t, "got": ob}
+            if any(a > b for a, b in zip(first_prios, first_prios[1:])):
+                return {"what": "items of frame %d did not run in ascending priority order: %s" % (t, first_prios), "op_index": i, "frame": t, "got": ob}
             if rc != len(calls):
                 return {"what": "tdma_sched_execute returned %d after %d callbacks" % (rc, len(calls)), "op_index": i, "frame": t, "got": ob}
+            pend.pop(t, None)
             lo[t] = hi[t] = 0
+            executed = True
         elif op[0] == "adv":
             if not executed:
                 return "n/a"
             executed = False
             t += 1
         elif op[0] == "reset":
-            for T in list(must):
+            for T in list(pend):
                 if T > t:
-                    del must[T]
-            for T in list(opt):
-                if T > t:
-                    del opt[T]
+                    del pend[T]
             for T in list(hi):
                 if T > t:
                     lo[T] = hi[T] = 0
             # the frame being current: the property does not say whether its items survive a reset
-            if t in must:
-                opt.setdefault(t, {}).update(must.pop(t))
+            for x in pend.get(t, []):
+                x.optional = True
             lo[t] = 0
         elif op[0] == "dump":
             if po:
@@ -624,7 +957,7 @@ def shrink(exe, cur, ops):
         i = 0
         while i < len(ops) and budget > 0:
             cand = None
-            if ops[i][0] in ("sched", "set", "dump", "flags", "reset"):
+            if ops[i][0] in ("sched", "set", "dump", "flags", "reset", "def"):
                 cand = ops[:i] + ops[i + 1:]
             if cand is not None:
                 budget -= 1
@@ -632,6 +965,17 @@ def shrink(exe, cur, ops):
                     ops = cand
                     changed = True
                     continue
+            if ops[i][0] == "def":
+                # single calls of a script
+                k = 0
+                while k < len(ops[i][2]) and budget > 0:
+                    budget -= 1
+                    cand = ops[:i] + [("def", ops[i][1], ops[i][2][:k] + ops[i][2][k + 1:])] + ops[i + 1:]
+                    if bad(cand):
+                        ops = cand
+                        changed = True
+                    else:
+                        k += 1
             i += 1
         # whole frames: a consecutive (exec, adv) pair
         i = 0
@@ -660,7 +1004,7 @@ def shape_of(ops, res):
     offs = [o[1] for o in ops if o[0] in ("sched", "set")]
     return {"max_offset": max(offs) if offs else -1, "n_sched": len(offs),
             "n_adv": sum(1 for o in ops if o[0] == "adv"), "has_reset": any(o[0] == "reset" for o in ops),
-            "has_set": any(o[0] == "set" for o in ops)}
+            "has_set": any(o[0] == "set" for o in ops), "n_scripts": sum(1 for o in ops if o[0] == "def" and o[2])}
 
 
 def report(run, exe, cur, ops, res):
@@ -670,8 +1014,9 @@ def report(run, exe, cur, ops, res):
         res2 = res
     w = {"kind": "tdma-history", "history": to_line(cur, ops), "impl": ans, "fails": res2["what"],
          "failing_op": op_str(ops[res2["op_index"]]) if res2.get("op_index", 0) < len(ops) else None,
-         "property_requires": "every item runs exactly once, in the frame it was scheduled for, in ascending priority order; "
-                              "full frame -> error return; executed frame empty"}
+         "property_requires": "every item runs exactly once, in the frame it was scheduled for (also when scheduled by a callback "
+                              "from inside tdma_sched_execute(): offset 0 = the same execute), items pending at the start of a frame in "
+                              "ascending priority order; full frame -> error return; executed frame empty"}
     w.update(shape_of(ops, res2))
     return run.report_witness(w)
 
@@ -702,9 +1047,20 @@ def search(run, corr, deep):
                 ops += [("exec",), ("adv",)]
             ops.append(("dump",))
             hist.append((cur, ops))
+    # long histories from every ring position: cur_bucket passes 255 and 511 advances with items pending across
+    for cur in range(NF):
+        hist.append(g.ring_walk(cur))
+    for i in range(run.scale(20, 200) * (3 if deep else 1)):
+        hist.append(g.long_run())
     for i in range(n):
-        c = i % 4
-        if c == 0:
+        c = i % 7
+        if c == 4:
+            hist.append(g.scripted(run.rng.choice([2, 8, 30]), selfresched=run.rng.choice([None, None, 0, 1])))
+        elif c == 5:
+            hist.append(g.scripted(run.rng.choice([1, 3, 12]), selfresched=run.rng.choice([None, 0])))
+        elif c == 6:
+            hist.append(g.scripted(run.rng.choice([2, 5]), selfresched=run.rng.choice([0, 1])))
+        elif c == 0:
             hist.append(g.fill())
         elif c == 1:
             hist.append(g.disciplined(run.rng.choice([2, 10, 30, 60]), [0, 1, 1, 2, 4], resets=False, overflow=True))
@@ -729,6 +1085,12 @@ def search(run, corr, deep):
         if res is None:
             stats["ok"] += 1
             items += sum(1 for o in ops if o[0] in ("sched", "set"))
+            if any(o[0] == "def" and o[2] for o in ops):
+                stats["scripted"] = stats.get("scripted", 0) + 1
+                stats["inside"] = stats.get("inside", 0) + ans.count("/")
+            nadv = sum(1 for o in ops if o[0] == "adv")
+            if nadv > 256:
+                stats["long"] = stats.get("long", 0) + 1
         elif res == "n/a":
             stats["n/a"] += 1
         else:
@@ -738,7 +1100,10 @@ def search(run, corr, deep):
     corr.distribution["oracle: histories within the premises"] = stats["ok"] + stats["fail"]
     corr.distribution["oracle: histories outside the premises (skipped)"] = stats["n/a"]
     corr.distribution["oracle: scheduling ops checked"] = items
-    return found
+    corr.distribution["oracle: histories with callbacks that schedule from inside"] = stats.get("scripted", 0)
+    corr.distribution["oracle: calls from inside checked"] = stats.get("inside", 0)
+    corr.distribution["oracle: histories with more than 256 advances"] = stats.get("long", 0)
+    return found + (gsmtime.search(run, corr, deep) if GSMTIME_PART else 0)
 
 
 def replay(run, path):
@@ -753,6 +1118,9 @@ def replay(run, path):
         w = v.get("witness")
         if not w:
             print("replay: no concrete input recorded (%s)" % json.dumps(v.get("broken"))[:400])
+            continue
+        if w.get("part") == "gsmtime":
+            bad += gsmtime.replay_witness(run, w)
             continue
         cur, ops = parse_line(w["history"])
         res, ans = check_history(exe, cur, ops)
